@@ -11,6 +11,9 @@ import FeatModel.Lemmas.C18_spd
 import FeatModel.Lemmas.C18_stride
 import FeatModel.Lemmas.C18_global
 import FeatModel.Lemmas.C18_tp
+import FeatModel.Lemmas.C18_nested
+import FeatModel.Lemmas.C18_intref
+import FeatModel.Lemmas.C18_layout
 import Mathlib.Tactic.IntervalCases
 /-! # C18 — property theorems (statements only; proofs live in Lemmas/C18_*.lean)
 
@@ -166,6 +169,32 @@ theorem C18.restriction_is_transpose (P T : FeatModel.LA.Csr Rat) (hP : P.valid 
     ∀ i j, i < P.rows → j < P.cols → (Transfer.ofProl P T).rest.entry j i = P.entry i j :=
   C18L.rest_spec P T hP
 
+/-- **the 2-level CSR layout is valid** — the hypothesis of `C18.restriction_is_transpose` is discharged for the
+prolongation matrix: `layout2lvl d` is C16's symbolic assembly (`injectify_sorted` of the dof adjacency) on the
+dof-mappings of the case; the driver *computes* the layout with it and the correspondence run compares the resulting
+`row_ptr` / `col_ind` with the arrays of the real `SymbolicAssembler::assemble_matrix_2lvl` matrix.  For every case with
+in-range coarse dof-mappings, and whatever values are stored: monotone row pointer, in-range and strictly increasing
+column indices, right dimensions -/
+theorem C18.layout_2lvl_valid (d : Dump) (g : FeatModel.Adj.Graph) (hg : layout2lvl d = some g)
+    (hmaps : mapsB d = true) (m : Mat) :
+    (csrOfDense d.nf d.nc g.domainPtr g.imageIdx m).valid = true ∧
+    (csrOfDense d.nf d.nc g.domainPtr g.imageIdx m).rows = d.nf ∧
+    (csrOfDense d.nf d.nc g.domainPtr g.imageIdx m).cols = d.nc :=
+  C18L.layout2lvl_valid d g hg hmaps m
+
+/-- … hence, without any layout hypothesis: the restriction built from the assembled prolongation of an `fe` case is
+its exact transpose at array level -/
+theorem C18.restriction_is_transpose_assembled (d : Dump) (g : FeatModel.Adj.Graph) (hg : layout2lvl d = some g)
+    (hmaps : mapsB d = true) (pd : Mat) (T : FeatModel.LA.Csr Rat) :
+    let P := csrOfDense d.nf d.nc g.domainPtr g.imageIdx pd
+    (Transfer.ofProl P T).rest.rows = d.nc ∧ (Transfer.ofProl P T).rest.cols = d.nf ∧
+    (Transfer.ofProl P T).rest.valid = true ∧
+    ∀ i j, i < d.nf → j < d.nc → (Transfer.ofProl P T).rest.entry j i = P.entry i j := by
+  intro P
+  obtain ⟨hv, hr, hc⟩ := C18L.layout2lvl_valid d g hg hmaps pd
+  obtain ⟨h1, h2, h3, h4⟩ := C18L.rest_spec P T hv
+  exact ⟨by rw [h1]; exact hc, by rw [h2]; exact hr, h3, fun i j hi hj => h4 i j (by rw [hr]; exact hi) (by rw [hc]; exact hj)⟩
+
 /-- `LAFEM::Transfer::prol / rest / trunc` never abort on matching sizes and are the products with `P`, `Pᵀ`, `T`
 (dense meaning of the stored CSR arrays; the output vector is overwritten) -/
 theorem C18.transfer_is_matrix_product (P T : FeatModel.LA.Csr Rat) (hP : P.valid = true) (hT : T.valid = true)
@@ -231,6 +260,92 @@ theorem C18.global_transfer_eq_local (P T : FeatModel.LA.Csr Rat) (hP : P.valid 
     (∃ xt, (GTransfer.mk mux [Transfer.ofProl P T]).trunc [yf] [tmp] coarse0 = some xt ∧
         ∀ j, j < P.cols → xt.getD j 0 = ∑ i ∈ range P.rows, T.entry j i * yf.getD i 0) :=
   C18L.global_transfer_products P T hP hT hTr hTc mux hmux xc fine0 yf coarse0 tmp hxc hf0 hyf hc0 htmp
+
+/-! ### nestedness derived from the element polynomials (no per-case certificate)
+
+`nestedRefB t k dim` is the finite table of polynomial identities `φ̂_j ∘ A_c = Σ_i φ̂_j(A_c(node_i)) · φ̂_i` on the
+reference cell (every child `c`, every coarse basis function `j`), with `φ̂` C15's generated reference polynomials
+(`FE.tabOf`), `A_c` the child maps of `Cubature::RefineFactory` (the driver's `childmap` op compares them with the real
+`RuleRefinery`) and `node_i` the nodal point of `φ̂_i`; it is evaluated by the kernel.
+Geometry assumption, stated honestly: the element is *parametric* and the fine trafo is the coarse trafo composed with
+the reference-affine child map, i.e. the basis values the assembly loops see are `φ̂_i(ξ)` and `φ̂_j(A_c ξ)` (`paramB`).
+This holds on affine simplices and on multilinear quadrilaterals/hexahedra (the child maps are affine on the reference
+cell), and the driver checks `paramB` on the real data of every Lagrange-1/2 `fe` case (also on graded meshes). -/
+
+/-- the table: Lagrange-1 and Lagrange-2 on the interval, the quadrilateral and the triangle, Lagrange-1 on the
+hexahedron (Lagrange-2 on the hexahedron: 8 × 27 identities of 27-term polynomials, not kernel-evaluated here; tetrahedra:
+the 12 child maps are not modelled) -/
+theorem C18.nested_reference_lagrange :
+    nestedRefB FeatModel.Gen.BasisH1.l1 .H 1 = true ∧ nestedRefB FeatModel.Gen.BasisH1.l2 .H 1 = true ∧
+    nestedRefB FeatModel.Gen.BasisH2.l1 .H 2 = true ∧ nestedRefB FeatModel.Gen.BasisH2.l2 .H 2 = true ∧
+    nestedRefB FeatModel.Gen.BasisS2.l1 .S 2 = true ∧ nestedRefB FeatModel.Gen.BasisS2.l2 .S 2 = true ∧
+    nestedRefB FeatModel.Gen.BasisH3.l1 .H 3 = true :=
+  ⟨C18L.nested_L1_H1, C18L.nested_L2_H1, C18L.nested_L1_H2, C18L.nested_L2_H2, C18L.nested_L1_S2, C18L.nested_L2_S2,
+    C18L.nested_L1_H3⟩
+
+/-- the identity as a statement about values: every coarse basis function restricted to a child cell is the combination
+of the fine basis functions with coefficients = coarse basis evaluated at the fine nodes, at every point `ξ` -/
+theorem C18.nested_reference_values {t : FeatModel.Poly.BasisTab} {k : FeatModel.FE.Kind} {dim : Nat}
+    (h : nestedRefB t k dim = true) {c j : Nat} (hc : c < numChildren k dim) (hj : j < t.nloc) (xi : List Rat) :
+    FeatModel.Poly.evalAt (childPoint k dim c xi) (t.val j)
+      = ∑ i ∈ range t.nloc, FeatModel.GT.get (Eref t k dim c) i j * FeatModel.Poly.evalAt xi (t.val i) :=
+  C18L.nested_ref h hc hj xi
+
+/-- **prolongation is exact for Lagrange-1/2 on every nested mesh**: for every family/shape of the table above and every
+case of a parametric element (`paramB`), any loop order, dof numbering, permutation state and cubature rule for which
+the local inversions succeed: `P · xc = vf` whenever `vf` holds the fine nodal values of the coarse function `xc`
+(`vf = E · xc` on every child, `E = ` coarse basis at the fine nodes) -/
+theorem C18.prolongation_exact_lagrange {t : FeatModel.Poly.BasisTab} {k : FeatModel.FE.Kind} {dim : Nat}
+    (hn : nestedRefB t k dim = true) (xis : List (List Rat)) (d : Dump) (hp : paramB t k dim xis d = true)
+    (hmaps : mapsB d = true) (locs : List (List Nat × List Nat × Mat)) (pd : Mat) (xc : List Rat) (vf : Nat → Rat)
+    (hlocs : localProls d = .ok locs) (hpd : prolDirect d locs = some pd)
+    (hsame : ∀ cell ∈ d.cells, ∀ ch ∈ cell.children, ∀ i, i < ch.fmap.length →
+      vf (ch.fmap.getD i 0)
+        = ∑ j ∈ range cell.cmap.length,
+            FeatModel.GT.get (Eref t k dim (cell.children.idxOf ch)) i j * xc.getD (cell.cmap.getD j 0) 0) :
+    ∀ r, r < d.nf → (matVec d.nf d.nc pd xc).getD r 0 = vf r :=
+  C18L.prolongation_exact_param hn xis d hp hmaps locs pd xc vf hlocs hpd hsame
+
+/-! ### the refined rule reproduces the coarse mass matrix — derived on the reference cell
+
+Full statement wanted: `intB d = true` for every case of a Lagrange family with a rule that is exact for degree `2k`.
+Proved part (`_partial`): the *reference-cell* identity — the refined rule (children `c`, weights `w_q/nch`, points
+`A_c ξ_q`) integrates every coarse mass integrand `φ̂_l φ̂_j` like the unrefined rule — from exactness of the rule on
+the monomials (C16's `local_integral_exact`, linearity over C14's reference integrals) and the change of variables
+`∫ p = Σ_c |det A_c| ∫ p∘A_c` (kernel-evaluated).  Missing: the lift to the physical weights of a `Dump`
+(`jac_det` constant on an affine cell and `jac_det_fine = jac_det_coarse / nch`); until then `intB` stays a per-case
+certificate of the driver (stream `certificates`). -/
+
+theorem C18.intB_reference_partial (t : FeatModel.Poly.BasisTab) (k : FeatModel.FE.Kind) (simplex : Bool) (d : Nat)
+    (r : FeatModel.LocalFE.Rule) (ms : List FeatModel.Poly.Mono)
+    (hex : r.exactOn simplex d ms = true) (hm : C18L.monosB t k d ms = true) (hcov : C18L.covB t k simplex d = true)
+    {l j : Nat} (hl : l < t.nloc) (hj : j < t.nloc) :
+    ((List.range (numChildren k d)).map fun c =>
+        FeatModel.LocalFE.localEntry r (1 / (numChildren k d : Nat) : Rat) (childMassPoly t k d c l j)).sum
+      = FeatModel.LocalFE.localEntry r 1 (massPoly t d l j) :=
+  C18L.refined_rule_reproduces t k simplex d r ms hex hm hcov hl hj
+
+/-- the hypotheses hold (kernel evaluation) for: Lagrange-1 with Simpson on the line and the square, Lagrange-2 with
+Newton–Cotes-closed:5 on the line, Lagrange-1 with Lauffer-2 on the triangle (Lagrange-2 / Newton–Cotes:5 on the
+square also evaluates to `true`, but needs 6 minutes of kernel time and is left out) -/
+theorem C18.intB_reference_table :
+    ((FeatModel.LocalFE.ruleOf false 1 "simpson").map fun r =>
+      r.exactOn false 1 (FeatModel.LocalFE.boxMonos 1 3) &&
+        C18L.monosB FeatModel.Gen.BasisH1.l1 .H 1 (FeatModel.LocalFE.boxMonos 1 3) &&
+        C18L.covB FeatModel.Gen.BasisH1.l1 .H false 1) = some true ∧
+    ((FeatModel.LocalFE.ruleOf false 1 "newton-cotes-closed:5").map fun r =>
+      r.exactOn false 1 (FeatModel.LocalFE.boxMonos 1 5) &&
+        C18L.monosB FeatModel.Gen.BasisH1.l2 .H 1 (FeatModel.LocalFE.boxMonos 1 5) &&
+        C18L.covB FeatModel.Gen.BasisH1.l2 .H false 1) = some true ∧
+    ((FeatModel.LocalFE.ruleOf false 2 "simpson").map fun r =>
+      r.exactOn false 2 (FeatModel.LocalFE.boxMonos 2 3) &&
+        C18L.monosB FeatModel.Gen.BasisH2.l1 .H 2 (FeatModel.LocalFE.boxMonos 2 3) &&
+        C18L.covB FeatModel.Gen.BasisH2.l1 .H false 2) = some true ∧
+    ((FeatModel.LocalFE.ruleOf true 2 "lauffer-degree-2").map fun r =>
+      r.exactOn true 2 (FeatModel.Cub.monos 2 2) &&
+        C18L.monosB FeatModel.Gen.BasisS2.l1 .S 2 (FeatModel.Cub.monos 2 2) &&
+        C18L.covB FeatModel.Gen.BasisS2.l1 .S true 2) = some true :=
+  ⟨C18L.repro_L1_H1, C18L.repro_L2_H1, C18L.repro_L1_H2, C18L.repro_L1_S2⟩
 
 /-! ### mesh permutation states
 
